@@ -147,6 +147,10 @@ def run(ctx, rep):
     check_layers()
     # every blob is decrypted (authenticated) and the cursor advances by the indexed length
     dec = [bb for bb, t in CP.calls() if "callee" in t and re.search(r"DecryptReadBackend(>)?::decrypt$", callee(t) + " " + callee_decl(t))]
+    # ... or in a per-blob helper called from check_pack: the call of such a helper is the blob's decrypt site
+    for hp_, sites_ in HELPERS.items():
+        if any("callee" in t_ and re.search(r"DecryptReadBackend(>)?::decrypt$", callee(t_) + " " + callee_decl(t_)) for _, t_ in prog.bodies[hp_].calls()):
+            dec += sites_
     rep.check("C05.b", "decrypts-header-and-blobs", len(dec) >= 2, where=CP.loc(), what=f"check_pack decrypts (authenticates) the header and every blob ({len(dec)} decrypt sites)")
     split = []
     for bb, t in CP.calls():
